@@ -121,8 +121,9 @@ def closure_transitions(prog, clos):
 
 def c20c(prog, R):
     r = R.rule("C20.c", "whoever removes files from the version marks them deleted", "P")
-    tmark = MustSet(prog, [A.TABLE_MARK_DELETED], "mark-table*")
-    bmark = MustSet(prog, [A.BLOB_MARK_DELETED], "mark-blob*")
+    # marks usually sit in `for` loops (zero iterations possible), possibly inside a helper: may-reach, then ordering
+    tmark = MaySet(prog, [A.TABLE_MARK_DELETED], "may mark tables")
+    bmark = MaySet(prog, [A.BLOB_MARK_DELETED], "may mark blob files")
     n = 0
     for uc in prog.all_calls(A.UPGRADE, A.UPGRADE_SEQNO):
         f = uc.fn
